@@ -76,7 +76,10 @@ LEVEL = {'text': 'Proof (partial): for every font value with one width per glyph
          'decoder-produced table set outside the classes listed in Stable, Read(Write(Read(T))) = Read(T) '
          '(C01_fixed_point_partial), and the unrestricted statement is refuted with a concrete witness '
          '(C01_fixed_point_full_false). Tied to write.go/read.go/font.go by field-exact correspondence on '
-         'constructed fonts (both outline kinds, CID-keyed CFF, extreme field values, all weight thresholds) and on '
+         'constructed fonts (both outline kinds; CID-keyed CFF with 1-3 font dicts, top-level matrix identity or scaled, '
+         'per-FD matrices identity/scaled/different; cmap tables with several Macintosh subtables per encoding and '
+         'full-repertoire subtables; GSUB/GPOS/GDEF with several languages per script, kerning pairs sharing a first '
+         'glyph, multi-glyph classes; extreme field values, all weight thresholds) and on '
          'foreign table combinations (each table absent in turn, OS/2 versions 0-4, Mac/Windows name tables, kern), '
          'by decoding the written tables with the repository\'s own decoders (font.derive), and by direct predicates on '
          'the real code: Read(Write(F)) = nf F with nf evaluated in Lean (font.nf), the three-generation predicate '
